@@ -124,6 +124,11 @@ def solve_smt2(o, timeout_ms=20000, cvc5=True, both=False):
     # 1. the full query, default configuration, short budget (most obligations end here)
     s, r = attempt(smt2, {}, min(timeout_ms, 2500))
     o['backend'] = 'z3'
+    # 1b. the same with the legacy simplex core (often much faster on the div/mod-heavy layout arithmetic)
+    if r == z3.unknown:
+        s, r = attempt(smt2, {'smt.arith.solver': 2}, min(timeout_ms, 4000))
+        if r != z3.unknown:
+            o['backend'] = 'z3(arith2)'
     # 2. weakened queries (unsat there is a proof): without the quantified assumptions from contract clauses (lite),
     #    with the small ones (mid tiers); default and MBQI-only configuration
     if r == z3.unknown and o['kind'] != 'cover':
@@ -175,8 +180,9 @@ def solve_smt2(o, timeout_ms=20000, cvc5=True, both=False):
             s2.set('timeout', int(min(timeout_ms, 8000)))
             s2.from_string(text)
             if s2.check() == z3.sat:
-                o['status'] = 'refuted'
-                o['backend'] = name
+                # NOT a refutation: the weakened query drops assumptions.  Recorded as a hint only; the verdict stays
+                # 'unknown' and pyvc/report.py decides with the committed baseline (proved before + code changed).
+                o['weak_backend'] = name
                 o['weak_model'] = True
                 try:
                     o['model'] = model_to_json(s2.model())
